@@ -40,8 +40,10 @@ ASSUMPTIONS = [
     "request targets are latin-1 text of at most a few hundred characters (any form: the request-line grammar is modelled, "
     "targets with whitespace/control characters answer 400)",
 ]
-RULE = ("GET <prefix><path> through a real Application/HTTPServer over a fake transport; path built from '..', '.', '', absolute "
-        "fixture paths, sibling names sharing the root's prefix, percent-encoded / . \\ NUL and invalid UTF-8, backslashes, long runs; "
+RULE = ("GET (15 % HEAD) <prefix><path> through a real Application/HTTPServer over a fake transport, URL pattern /s/(.*), /s(.*), /(.*), (.*) or /*(.*); "
+        "path built from '..', '.', '', absolute "
+        "fixture paths, sibling names sharing the root's prefix, percent-encoded / . \\ NUL and invalid UTF-8, backslashes, long runs, "
+        "and (4 %) a raw whitespace/control/high character; "
         "non-trivial = the path contains a dot segment, an empty segment, an escape or leaves/re-enters the root; distinct by canonical JSON")
 EXHAUSTIVE = {"quick": False, "thorough": False}
 CLAUSE_CAVEATS = [
